@@ -11,6 +11,7 @@
  *                                          Hendbitaccess(id,0); results: wN | wfail | N:V | rfail | s0 | sfail
  *  (B) cnbit.c     T nbit enc/dec/proj ...   (see below)
  *  (C) cskphuff.c  T skphuff enc/dec ...
+ *  (E) cskphuff.c, unit level   T skphuff splay <left> <right> <up> <plain> => <left'> <right'> <up'>   (HCIcskphuff_splay on one tree)
  *
  * Oracles (implementation side only, independent of the Lean model): an independent C bit packer/unpacker
  * (shadow bit array); n-bit read-back equals the documented projection computed arithmetically on the integer
@@ -20,6 +21,8 @@
 #include "hfile_priv.h"
 #include "hcomp.h"
 #include "hk.h"
+#include "hdf/src/cskphuff.c" /* resolved through -I<REPO>: for the static HCIcskphuff_splay; the library's cskphuff.o is then not linked
+                                 (every external symbol of it is defined here), so the whole engine runs this copy of the coder */
 
 #define MAXB 40000
 static uint8_t raw[MAXB + 16], shadow[MAXB + 16], data[MAXB + 16], rbuf[MAXB + 16];
@@ -647,11 +650,74 @@ static void case_probe(void)
     Hclose(fid);
 }
 
+/* ------------------------------------------------------------------ (E) HCIcskphuff_splay, unit level (function-level Tie A cross-run)
+ *   T skphuff splay <left> <right> <up> <plain> => <left'> <right'> <up'>
+ * one tree (skip_size 1) initialised as HCIcskphuff_init does, warmed up by a random byte sequence of splays, then a few splays
+ * each reported with the arrays before and after (decimal, comma separated: left[SUCCMAX], right[SUCCMAX], up[TWICEMAX]).
+ * The arrays are malloc'ed at their exact sizes (ASan sees any index outside them).  Oracle (independent of the model): after every
+ * splay the three arrays still describe one tree (up is the inverse of left/right on the nodes 0..511). */
+static void sb_arr_u(const unsigned *a, int n) { for (int i = 0; i < n; i++) sb_printf(i ? ",%u" : "%u", a[i]); }
+static void sb_arr_8(const uint8 *a, int n) { for (int i = 0; i < n; i++) sb_printf(i ? ",%u" : "%u", (unsigned)a[i]); }
+static int splay_tree_ok(const unsigned *l, const unsigned *r, const uint8 *u)
+{
+    for (int j = 0; j < SUCCMAX; j++) {
+        if (l[j] >= 2 * SUCCMAX || r[j] >= 2 * SUCCMAX || l[j] == r[j]) return 0;
+        if (u[l[j]] != j || u[r[j]] != j) return 0;
+    }
+    for (int x = 0; x < 2 * SUCCMAX; x++)
+        if (l[u[x]] != (unsigned)x && r[u[x]] != (unsigned)x) return 0;
+    return 1;
+}
+static uint8_t splay_byte(int kind, int i)
+{
+    uint8_t v = hk_byte();
+    switch (kind) {
+        case 0: return v;                                  /* uniform */
+        case 1: return (uint8_t)(v & 1);                   /* two symbols: one very deep tree */
+        case 2: return (uint8_t)(v & 0x0F);
+        case 3: return (uint8_t)i;                         /* ramp: every symbol */
+        case 4: return (uint8_t)(i < 140 ? (i & 1) : i);   /* alternation then ramp: paths longer than 32 */
+        case 5: return (uint8_t)(hk_chance(50) ? 255 : (hk_chance(50) ? 0 : v));
+        default: return (uint8_t)(v % 3 == 0 ? 200 : v % 7);
+    }
+}
+static void case_splay(void)
+{
+    comp_coder_skphuff_info_t si;
+    unsigned *l = malloc(sizeof(unsigned) * SUCCMAX), *r = malloc(sizeof(unsigned) * SUCCMAX);
+    uint8    *u = malloc(sizeof(uint8) * TWICEMAX);
+    unsigned *lp[1], *rp[1]; uint8 *up[1];
+    if (!l || !r || !u) { free(l); free(r); free(u); return; }
+    lp[0] = l; rp[0] = r; up[0] = u;
+    memset(&si, 0, sizeof si);
+    si.skip_size = 1; si.left = lp; si.right = rp; si.up = up; si.skip_pos = 0; si.offset = 0;
+    for (int i = 0; i < TWICEMAX; i++) u[i] = (uint8)(i >> 1);       /* as HCIcskphuff_init */
+    for (int j = 0; j < SUCCMAX; j++) { l[j] = (unsigned)(j << 1); r[j] = (unsigned)((j << 1) + 1); }
+    int kind = (int)hk_range(0, 6), warm, steps = (int)hk_range(1, 5), i = 0;
+    switch ((int)hk_range(0, 3)) {
+        case 0: warm = 0; break;
+        case 1: warm = (int)hk_range(1, 20); break;
+        default: warm = (int)hk_range(100, 3000); break;
+    }
+    for (; i < warm; i++) HCIcskphuff_splay(&si, splay_byte(kind, i));
+    if (!splay_tree_ok(l, r, u)) hk_fail("splay-tree", "arrays are not a tree after %d warm-up splays (kind %d)", warm, kind);
+    for (int s = 0; s < steps; s++, i++) {
+        uint8_t p = hk_chance(30) ? hk_byte() : splay_byte(kind, i);
+        sb_reset(); sb_printf("T skphuff splay "); sb_arr_u(l, SUCCMAX); sb_printf(" "); sb_arr_u(r, SUCCMAX); sb_printf(" "); sb_arr_8(u, TWICEMAX);
+        sb_printf(" %u => ", (unsigned)p);
+        HCIcskphuff_splay(&si, p);
+        sb_arr_u(l, SUCCMAX); sb_printf(" "); sb_arr_u(r, SUCCMAX); sb_printf(" "); sb_arr_8(u, TWICEMAX); sb_flush();
+        if (!splay_tree_ok(l, r, u)) hk_fail("splay-tree", "arrays are not a tree after splay(%u) (warm %d kind %d step %d)", (unsigned)p, warm, kind, s);
+    }
+    hk_stat("splay_cases", 1); hk_stat("splay_lines", steps);
+    free(l); free(r); free(u);
+}
+
 /* scenario classes and their weights; argv[5] is a bit mask of enabled classes (default: all) */
 static long enabled = 0xFFFF;
 static void run_case(int k)
 {
-    static const struct { int bit, weight; } C[] = {{1, 14}, {2, 10}, {4, 20}, {8, 2}, {16, 3}, {32, 28}, {64, 19}, {128, 2}, {256, 2}};
+    static const struct { int bit, weight; } C[] = {{1, 14}, {2, 10}, {4, 20}, {8, 2}, {16, 3}, {32, 28}, {64, 19}, {128, 2}, {256, 2}, {512, 4}};
     int tot = 0, i;
     for (i = 0; i < (int)(sizeof C / sizeof C[0]); i++) if (enabled & C[i].bit) tot += C[i].weight;
     if (tot == 0) return;
@@ -671,6 +737,7 @@ static void run_case(int k)
         case 64: case_skphuff(); break;
         case 128: case_probe(); break;
         case 256: case_nbit_sweep(); break;
+        case 512: case_splay(); break;
     }
 }
 
